@@ -270,3 +270,35 @@ c04_lognormal_cv!(c04_lognormal_cv_f64, f64);
 //@ bounds: every finite-or-NaN (mean, cv) pair of f32 bit patterns
 //@ assumes: infinite mean/cv unspecified; libm::logf, libm::sqrtf by contract
 c04_lognormal_cv!(c04_lognormal_cv_f32, f32);
+
+//@ id: c06_stdnormal_tail_regions
+//@ prop: C06
+//@ tier: quick
+//@ cap: 900
+//@ funcs: StandardNormal::sample::<f64> zero_case closure: Marsaglia tail acceptance test -2 ln(y_) >= (ln(x_)/R)^2
+//@ bounds: base layer, first tail candidate in one of two regions where the test is decided by the ln contract alone: (A) x_ >= 1/2 and y_ <= 1/2 must be accepted (returns after exactly 3 words); (B) x_ <= 2^-11 and y_ >= 1/2 must be rejected (cannot return after 3 words); up to 5 words
+//@ assumes: f64::ln by contract (factor-of-two enclosure)
+vproof! {
+    #[kani::unwind(5)]
+    fn c06_stdnormal_tail_regions() {
+        let mut rng = SymRng::new(5);
+        let w0 = rng.words[0];
+        kani::assume(w0 & 0xff == 0);
+        // Open01: (w >> 12) as 52-bit fraction of [1,2) minus (1 - 2^-53)
+        let fx = rng.words[1] >> 12;
+        let fy = rng.words[2] >> 12;
+        let region_a = fx >= (1u64 << 51) && fy < (1u64 << 51) - 1;
+        let region_b = fx < (1u64 << 41) && fy >= (1u64 << 51);
+        kani::assume(region_a || region_b);
+        let z: f64 = StandardNormal.sample(&mut rng);
+        kani::assume(rng.pos >= 3); // the base-layer rectangle (1 word) is not the subject here
+        if region_a {
+            vassert!(rng.pos == 3, "normal tail: a candidate with -2 ln(y) >= x^2 was not accepted");
+            vassert!(z.abs() >= ZIG_NORM_R && z.abs() <= ZIG_NORM_R + 0.19, "normal tail: accepted candidate not at R - ln(x_)/R");
+        } else {
+            vassert!(rng.pos != 3, "normal tail: a candidate with -2 ln(y) < x^2 was accepted");
+        }
+        kani::cover!(region_a && rng.pos == 3, "accept region");
+        kani::cover!(region_b && rng.pos == 5, "reject region, accepted at the second candidate");
+    }
+}
